@@ -79,12 +79,38 @@ CLAIMS = {
          "num_machines -- via the C04 slot theorem, so the zip with the caller's buffer never truncates or overruns), C20_fields, C20_duration_split, C20_null, "
          "C20_start (result code: NullPointer iff out is null; Ok iff UTF-8, every line parses and fractions in [0,1]). The extern \"C\" functions are called with "
          "canary-surrounded buffers and compared with the model and the Rust framework.", "DESIGN.md section 4, C20"),
+ "C15": ("Theorems C15_causality (for all machine sets, base-only queues, delays, pps limits, tapes: for every side, kind and time T the TunnelRecv events up to T are at most "
+         "the other side's TunnelSent of that kind sent at least one delay before T -- the counting form of an injective matching to earlier sends), C15_conservation (NormalSent <= share, "
+         "normal TunnelSent <= NormalSent, peer TunnelRecv <= TunnelSent, peer NormalRecv <= TunnelRecv), C15_complete (exactly the share when the run stops because all normal packets were "
+         "processed; sim_loop_r is the loop returning its stop reason, proved equal to sim_loop), C15_sorted. Proved by a counting invariant over the whole main loop (induction on its fuel), "
+         "heap operations handled as permutations. The simulator model is tied to sim_advanced by the trace-level differential (every draw of both frameworks recorded).", "DESIGN.md section 0 and 4, C15"),
+
+ "C16": ("PARTIAL at trace level. Theorems C16_no_leak (EVERY TunnelSent of EVERY returned trace was released by pick_next in an iteration reachable from the initial state in which its side "
+         "was not blocking, or blocking bypassably with the packet carrying the bypass flag), C16_block_rule (start / replace / longest-of and the conjunction rule for the bypass flag), "
+         "C16_blocking_end (every BlockingEnd of every trace is the expiry of that side's blocking, reported at the expiry, clearing it), C16_bypass_origin, and C16_zero_duration_refuted "
+         "(known finding F8). The blocking state in C16_no_leak is the simulator's own state (existential), connected to the action stream by the step rule; the single trace-level rule is decided "
+         "on generated runs by the monitor, which replays the actions through fresh frameworks. Fixes F10 and F14 were found by this check.", "DESIGN.md section 0 and 4, C16"),
+
+ "C17": ("PARTIAL at trace level. Theorems C17_slot (the slot holds the last SendPadding/BlockOutgoing for the machine with due = issue time + timeout; Cancel clears; others untouched), "
+         "C17_fire (a firing is a slot entry due exactly then; event time, machine and flags are the action's; the slot is cleared once), C17_only_by_firing, C17_earliest, and C17_not_past "
+         "(for every event of every returned trace no pending, not-overdue timer is earlier than the event: a non-superseded action fires before simulated time passes it). "
+         "The sentence 'every PaddingSent is caused by the most recent action' is decided by the replaying monitor on generated runs.", "DESIGN.md section 0 and 4, C17"),
+
+ "C18": ("PARTIAL at trace level. Theorems C18_update (fold of the UpdateTimer contract: replace / none running / later expiry; Cancel clears), C18_begins (exactly one TimerBegin at that "
+         "instant per UpdateTimer that set the timer, nothing else), C18_end (TimerEnd at the stored expiry, once), C18_only_by_firing (a cancelled or superseded expiry can no longer fire), "
+         "C18_earliest, C18_not_past. Fix F7 (zero duration with no timer running) was found by this check.", "DESIGN.md section 0 and 4, C18"),
+
+ "C19": ("PARTIAL (filters: theorem for max_trace_length = 0, the bounded case is checked as a prefix relation by the monitor; totality: for total clocks, std Duration overflow inside the "
+         "frameworks is finding F6 of C01). Theorems C19_projection (filtered run = filter of the unfiltered run, Panic/OutOfFuel included), C19_no_assertion (sim_advanced never returns Panic: "
+         "no BUG assertion, unwrap or index failure, for every non-empty well-routed queue and machines with in-range targets), C19_time (the time-backwards check is dead code, trace sorted, "
+         "final sort is the identity), C19_bounds (trace-length and iteration bounds, pick_next's recursion ends). Reproducibility: the model is a function of (machines, queue, args, tape); the "
+         "monitor runs every case twice. Fix F9 (pps = 2^32) was found by this check.", "DESIGN.md section 0 and 4, C19"),
 }
 
 NOT_YET = "check not built yet (in progress; planned per DESIGN.md section 7)"
 
 def main():
-    hooks_commits = ["8795b76", "685947b"]
+    hooks_commits = ["8795b76", "685947b", "f1f74f7", "8e1ea09"]
     m = {
      "version": 1,
      "setup_cmd": "bin/vcheck setup",
